@@ -105,6 +105,22 @@ pub fn scenarios(tier: &str) -> Vec<Scenario> {
     v.push(Scenario::new("staggered_unbondings_one_delegator", &["unbonding_paid", "unbonding_still_pending", "end"], || {
         run_fixed(&staggered(false), Cfg::default())
     }));
+    v.push(Scenario::new("fully_slashed_unbonding_ahead_of_another", &["unbonding_paid", "end"], || {
+        // found missing by seed C14b: an unbonding slashed to zero sits in the queue ahead of one from
+        // an unslashed validator; both mature at the same block update
+        run_fixed(
+            &[
+                Op::Delegate { d: 0, v: 0 },
+                Op::Delegate { d: 0, v: 1 },
+                Op::Undelegate { d: 0, v: 0 },
+                Op::Undelegate { d: 0, v: 1 },
+                Op::Slash { v: 0, p: PSel::Boundary },
+                Op::Advance { dt: DtSel::Sym(0, 100) },
+                Op::Advance { dt: DtSel::Sym(0, 100) },
+            ],
+            Cfg::default(),
+        )
+    }));
     v.push(Scenario::new("staggered_unbondings_two_delegators", &["unbonding_paid", "unbonding_still_pending", "end"], || {
         run_fixed(&staggered(true), Cfg::default())
     }));
